@@ -472,8 +472,8 @@ def run(chk):
             chk.correspondence_broken("translator and C25.parseBnd disagree on a bound string", s, o, want)
     if not ok:
         table_search(chk, table)
-    n_random = 600 if chk.tier == "thorough" else 45
-    n_malformed = 150 if chk.tier == "thorough" else 15
+    n_random = 400 if chk.tier == "thorough" else 45
+    n_malformed = 100 if chk.tier == "thorough" else 15
     cases = [fix_env_keys(c) for c in load_corpus()] + list(directed_cases()) + list(sweep_cases(chk.tier == "thorough"))
     stats["corpus+directed+sweep"] = len(cases)
     cases += [gen_case(chk.rng) for _ in range(n_random)]
